@@ -1,7 +1,7 @@
 (* C13 correspondence: run the model on the same operation history as the
    implementation and compare, after every operation, the outcome, the three
    internal fields exposed by Variables.__reduce__, the label sequence and the
-   answers of count/index for a probe alphabet. *)
+   answers of count/index for a probe alphabet and of v[a:b:s] for the case's slice probes. *)
 From Coq Require Import List ZArith Bool Arith.
 From Dimod Require Import Base.Util Model.Vars.
 Import ListNotations.
@@ -24,10 +24,16 @@ Record seen := mkSeen {
   s_stop : nat;
   s_list : list lab;
   s_count : list bool;               (* count(p) for p in probes *)
-  s_index : list (option nat)        (* index(p) or None when it raises *)
+  s_index : list (option nat);       (* index(p) or None when it raises *)
+  s_slices : list (option (list lab)) (* list(v[a:b:s]) for the case's slice probes, None when it raises *)
 }.
 
-Record case := mkCase { c_init : list lab; c_probes : list lab; c_steps : list (op * seen) }.
+Definition sliceq := (option Z * option Z * option Z)%type.
+Record case := mkCase { c_init : list lab; c_probes : list lab; c_slices : list sliceq; c_steps : list (op * seen) }.
+
+Definition slice_of (v : vars) (q : sliceq) : option (list lab) :=
+  let '(a, b, s) := q in
+  match getitem_slice v a b s with Ok w => Some (to_list w) | Err => None end.
 
 Definition step (v : vars) (o : op) : vars * bool * option lab :=
   match o with
@@ -47,7 +53,7 @@ Definition nmap_eqb (a b : list (nat * lab)) : bool :=
 Definition lmap_eqb (a b : list (lab * nat)) : bool :=
   Nat.eqb (length a) (length b) && forallb (fun kv => option_eqb Nat.eqb (lget (fst kv) a) (Some (snd kv))) b.
 
-Definition agrees (probes : list lab) (v : vars) (ok : bool) (ret : option lab) (s : seen) : bool :=
+Definition agrees (probes : list lab) (slices : list sliceq) (v : vars) (ok : bool) (ret : option lab) (s : seen) : bool :=
   Bool.eqb ok (s_ok s)
   && (if ok then opt_lab_eqb ret (s_ret s) else true)
   && Nat.eqb (stop v) (s_stop s)
@@ -58,17 +64,18 @@ Definition agrees (probes : list lab) (v : vars) (ok : bool) (ret : option lab) 
   (* property oracle on the implementation's own answers: it behaves like the list it shows *)
   && list_eqb Bool.eqb (map (fun p => mem_lab p (s_list s)) probes) (s_count s)
   && list_eqb (option_eqb Nat.eqb) (map (fun p => list_index p (s_list s)) probes) (s_index s)
-  && nodup_labs (s_list s).
+  && nodup_labs (s_list s)
+  && list_eqb (option_eqb (list_eqb lab_eqb)) (map (slice_of v) slices) (s_slices s).
 
-Fixpoint run (probes : list lab) (v : vars) (steps : list (op * seen)) : bool :=
+Fixpoint run (probes : list lab) (slices : list sliceq) (v : vars) (steps : list (op * seen)) : bool :=
   match steps with
   | [] => true
   | (o, s) :: r =>
       let '(v', ok, ret) := step v o in
-      agrees probes v' ok ret s && run probes v' r
+      agrees probes slices v' ok ret s && run probes slices v' r
   end.
 
 Definition init_vars (ls : list lab) : vars :=
   match extend empty ls true with Ok v => v | Err => empty end.
 
-Definition check (c : case) : bool := run (c_probes c) (init_vars (c_init c)) (c_steps c).
+Definition check (c : case) : bool := run (c_probes c) (c_slices c) (init_vars (c_init c)) (c_steps c).
